@@ -74,7 +74,16 @@ def _expectedFailure(func):
         try:
             func(*args, **kwargs)
         except Exception:
-            raise _ExpectedFailure(sys.exc_info())
+            exc_info = sys.exc_info()
+            try:
+                # Like TestCase.expectFailure, report the traceback of the
+                # failure that was expected along with the outcome.
+                case = getattr(func, "__self__", None)
+                if isinstance(case, TestCase):
+                    case._report_traceback(exc_info)
+                raise _ExpectedFailure(exc_info)
+            finally:
+                del exc_info
         raise _UnexpectedSuccess
 
     return wrapper
